@@ -57,11 +57,15 @@ TINY = F(1, 2**27)
 NEAR = ["1000", "1000001/1000", "1000000", "1000001", "1000000000", "1000001000"]    # 1e3 .. 1e9, relative gaps 1e-6
 SPREAD = ["1/" + "1" + "0" * 150, "1" + "0" * 150, "1"]          # score spread ~ 690
 # values of a variable: ints, strings or booleans (falsy members 0, "", False), one type per variable
-VALS = {"int": [0, 1, 2], "str": ["", "x", "y"], "bool": [False, True]}
+VALS = {"int": [0, 1, 2], "str": ["", "x", "y"], "bool": [False, True],
+        # optional-valued variables: None is a VALUE like any other ({'holding': None} != {'holding': 'x'})
+        "optstr": [None, "x", "y", None], "optint": [None, 0, 1, None]}
 
 
 def vcode(v):
     """value -> Z code used in the model (types never mix within a variable)"""
+    if v is None:
+        return 300
     if isinstance(v, bool):
         return 200 + int(v)
     if isinstance(v, int):
@@ -140,7 +144,7 @@ def pick_paths(rng, pool, k):
 def gen_ft_case(rng):
     shape = rng.choice(["product", "product", "product", "product3", "mix", "mix", "mixraw", "scale", "div",
                         "norm", "marg", "margprod", "fence", "constraint", "selfprod", "selfmix", "spread"])
-    vt = {p: rng.choice(["int", "int", "str", "bool"]) for p in PATHS}
+    vt = {p: rng.choice(["int", "int", "str", "bool", "optstr", "optint"]) for p in PATHS}
     rel = rng.choice(["shared", "disjoint", "partial", "partial"])
     k1 = rng.randint(1, 3)
     p1 = pick_paths(rng, PATHS, k1)
@@ -730,6 +734,11 @@ def run(ctx0):
                             ("ft:non_dyadic_weight", any(x.denominator & (x.denominator - 1) for x in allw)),
                             ("ft:ten_rows_of_one_tenth", any(len(t["rows"]) >= 10 for t in case["tables"])),
                             ("ft:int_typed_weights", any(t.get("int_w") and t["w"] and all(F(w).denominator == 1 for w in t["w"]) and t.get("ctor") == "probs" for t in case["tables"])),
+                            ("ft:none_valued_variable", any(v is None for t in case["tables"] for r in t["rows"] for _, v in flatten(r))),
+                            ("ft:none_vs_value_on_shared_variable", len(case["tables"]) > 1 and any(
+                                pa == pb and (va is None) != (vb is None)
+                                for ra in case["tables"][0]["rows"] for rb in case["tables"][1]["rows"]
+                                for pa, va in flatten(ra) for pb, vb in flatten(rb))),
                             ("ft:one_row_table", any(len(t["rows"]) == 1 for t in case["tables"])),
                             ("ft:empty_table", any(len(t["rows"]) == 0 for t in case["tables"])),
                             ("ft:tiny_positive_result_weight", "rows" in res and any(not isinstance(w, str) and 0 < vlib.frac(w) <= TINY for w in res["w"]))):
